@@ -193,7 +193,8 @@ ScDecFields(fs, s, ord) ==
           ELSE LET q == ScDecFields(fs, ScDrop(s, r.n), Tail(ord))
                IN IF ~q.ok THEN q ELSE ScOk(<<r.v>> \o q.v, r.n + q.n)
 ScDec(t, s) ==
-  CASE t.k \in {"u", "i"} -> IF Len(s) < t.n THEN ScFailAt(t.k, "short") ELSE ScOk(SubSeq(s, 1, t.n), t.n)
+  \* a one-byte integer is either there or not; a wider one can be PARTLY there (reported apart: "u8"/"i8" vs "u"/"i")
+  CASE t.k \in {"u", "i"} -> IF Len(s) < t.n THEN ScFailAt(IF t.n = 1 THEN t.k \o "8" ELSE t.k, "short") ELSE ScOk(SubSeq(s, 1, t.n), t.n)
     [] t.k = "u128" -> IF Len(s) < 16 THEN ScFailAt("u128", "short") ELSE ScOk(SubSeq(s, 1, 16), 16)
     [] t.k = "compact" -> ScCompactDec(s, 8, "compact")
     [] t.k = "bigint" -> ScCompactDec(s, 67, "bigint")
